@@ -268,6 +268,16 @@ func (t *Thread) Yield(args []Value) ([]Value, error) {
 // This turns off the thread, cleaning up its close stack.  The thread must be
 // running.
 func (t *Thread) end(args []Value, err error, exception interface{}) {
+	// The pending to-be-closed values are closed first, while the thread is
+	// still running and no lock is held: the __close handlers are Lua code, they
+	// may use coroutines themselves and they may exhaust the context's resources.
+	if exception == nil {
+		err, exception = t.closePending(err)
+	} else {
+		// The context was terminated: no resources to run the handlers, so
+		// just discard them (as CallContext does).
+		t.closeStack.truncate(0)
+	}
 	caller := t.caller
 	verifSched(verifEvBeforeLock, t)
 	t.mux.Lock()
@@ -287,10 +297,40 @@ func (t *Thread) end(args []Value, err error, exception interface{}) {
 	close(t.resumeCh)
 	t.status = ThreadDead
 	t.caller = nil
-	err = t.cleanupCloseStack(nil, 0, err) // TODO: not nil
 	t.closeErr = err
 	t.ReleaseBytes(2 << 10) // The goroutine will terminate after this
 	caller.sendResumeValues(args, err, exception)
+}
+
+// closePending runs the __close handlers of all pending to-be-closed values of a
+// thread that is about to end.  If the context is terminated while they run, the
+// remaining ones are discarded and the termination is returned as exception.
+func (t *Thread) closePending(err error) (error, interface{}) {
+	for {
+		var exception interface{}
+		err, exception = t.closePendingProtected(err)
+		if _, ok := exception.(threadClose); !ok {
+			return err, exception
+		}
+		// The thread was closed while suspended inside a handler: carry on with
+		// the remaining handlers.
+	}
+}
+
+func (t *Thread) closePendingProtected(err error) (closeErr error, exception interface{}) {
+	defer func() {
+		if r := recover(); r != nil {
+			switch r.(type) {
+			case ContextTerminationError:
+				t.closeStack.truncate(0)
+			case threadClose:
+			default:
+				panic(r)
+			}
+			closeErr, exception = err, r
+		}
+	}()
+	return t.cleanupCloseStack(nil, 0, err), nil // TODO: not nil
 }
 
 func (t *Thread) call(c Callable, args []Value, next Cont) error {
